@@ -1125,3 +1125,49 @@ T("C19", "twin-reorder-dialect", (SYE, '        "cos": sympy.cos,\n        "sin"
 T("C19", "twin-negate-unary-minus", (SYE, "    return expr * (-1)", "    return -expr"))
 T("C19", "twin-revlex-slice", (SRT, "    return list(reversed(natural_key(symbol)))", "    return natural_key(symbol)[::-1]"))
 T("C19", "twin-extra-dialect-function", (SYE, '        "tan": sympy.tan,', '        "tan": sympy.tan,\n        "log": sympy.log,'))
+
+# ----------------------------------------------------------------------------- second round (rules added after the seeded changes)
+EXV = "measurements/expectation_values.py"
+MMD = "distributions/mmd.py"
+ORQD = "decompositions/_orquestra_decompositions.py"
+
+B("C01", "append-empty-shortcut", (CIR, "def _append_circuit(other: Circuit, circuit: Circuit):\n    return type(circuit)(", "def _append_circuit(other: Circuit, circuit: Circuit):\n    if not other.operations:\n        return circuit\n    return type(circuit)("), rule="C01-D3")
+B("C07", "xy-flagged-hermitian", (BUI, 'XY = make_parametric_gate_prototype("XY", _matrices.xy_matrix, 2)', 'XY = make_parametric_gate_prototype("XY", _matrices.xy_matrix, 2, is_hermitian=True)'), rule="C07-D6")
+B("C08", "dagger-matrix-conjugate-only", (GAT, "        return self.wrapped_gate.matrix.adjoint()", "        return self.wrapped_gate.matrix.conjugate()"), rule="C08-D4")
+B("C08", "iswap-flagged-hermitian", (BUI, 'ISWAP = _gates.MatrixFactoryGate("ISWAP", _matrices.iswap_matrix, (), 2)', 'ISWAP = _gates.MatrixFactoryGate("ISWAP", _matrices.iswap_matrix, (), 2, is_hermitian=True)'), rule="C08-D4")
+B("C11", "parsed-zero-coefficient-dropped", (OPS, "            if _parsed_coefficient is not None:\n                coefficient = _parsed_coefficient", "            if _parsed_coefficient:\n                coefficient = _parsed_coefficient"), rule="C11-D5")
+B("C11", "default-coefficient-by-truthiness", (OPS, "        self.coefficient = 1.0 if coefficient is None else coefficient", "        self.coefficient = coefficient or 1.0"), rule="C11-D5")
+B("C11", "covariances-read-only-with-correlations", (EXV, """        estimator_covariances: Union[List, None] = None
+        if dictionary.get("estimator_covariances"):
+            estimator_covariances = []
+            for covariance_matrix in cast(
+                Iterable, dictionary.get("estimator_covariances")
+            ):
+                estimator_covariances.append(convert_dict_to_array(covariance_matrix))
+""", """        estimator_covariances: Union[List, None] = None
+        if dictionary.get("correlations"):
+            if dictionary.get("estimator_covariances"):
+                estimator_covariances = []
+                for covariance_matrix in cast(
+                    Iterable, dictionary.get("estimator_covariances")
+                ):
+                    estimator_covariances.append(
+                        convert_dict_to_array(covariance_matrix)
+                    )
+"""), rule="C11-D1")
+B("C12", "symbolic-norm-unconjugated", (WF, "            probs_of_ground_entries = np.sum(np.abs(numbers) ** 2)", "            probs_of_ground_entries = np.dot(numbers, numbers).real"), rule="C12-D4")
+B("C12", "numeric-norm-without-square", (WF, "            probs_of_ground_entries = np.sum(np.abs(arr) ** 2)", "            probs_of_ground_entries = np.sum(np.abs(arr))"), rule="C12-D4")
+T("C12", "twin-norm-via-vdot", (WF, "            probs_of_ground_entries = np.sum(np.abs(numbers) ** 2)", "            probs_of_ground_entries = np.vdot(numbers, numbers).real"))
+B("C17", "mmd-basis-vacuous-filter", (MMD, "    all_keys = set(target_keys).union(measured_keys)", "    all_keys = list(target_keys) + [\n        key for key in measured_keys if key not in measured_keys\n    ]"), rule="C17-D3m")
+B("C17", "mmd-basis-target-only", (MMD, "    all_keys = set(target_keys).union(measured_keys)", "    all_keys = set(target_keys)"), rule="C17-D3m")
+B("C17", "mmd-kernel-asymmetric", (MMD, "        kernel_matrix = compute_rbf_kernel(basis, basis, sigma)", "        kernel_matrix = compute_rbf_kernel(basis, basis[::-1], sigma)"), rule="C17-D3m")
+T("C17", "twin-mmd-ordered-union", (MMD, "    all_keys = set(target_keys).union(measured_keys)", "    all_keys = list(target_keys) + [key for key in measured_keys if key not in target_keys]"))
+B("C18", "predicate-unwraps-any-modifier", (ORQD, """        return (
+            operation.gate.name == "U3"
+            or isinstance(operation.gate, ControlledGate)
+            and operation.gate.wrapped_gate.name == "U3"
+        )""", """        gate = operation.gate
+        return getattr(gate, "wrapped_gate", gate).name == "U3\""""), rule="C18-D4")
+B("C18", "predicate-unguarded-wrapped-gate", (ORQD, """            or isinstance(operation.gate, ControlledGate)
+            and operation.gate.wrapped_gate.name == "U3\"""", """            or hasattr(operation.gate, "wrapped_gate")
+            and operation.gate.wrapped_gate.name == "U3\""""), rule="C18-D4")
